@@ -70,6 +70,14 @@ CHECKS = {
                 technique="deterministic simulation: LocalInference estimator-reuse histories over oracles and iteration counts that select restart / damping / post-iteration paths; validity invariants and closed-form optimum on disjoint cliques",
                 text="LocalInference.estimate for oracles convex / approx / pairwise, 1-2 calls per estimator object (warm start on/off), iteration counts 1..300: no exception, every measured clique's table finite, non-negative and summing to total, loss no worse than the uniform start, primal feasibility < 1.0 with the convex oracle, and on pairwise-disjoint cliques the loss must reach the closed-form optimum (escalated x4, x16 before reporting).",
                 note="three open known findings (F6, F10, F11) cover the no-worse-than-uniform, recursion and stall clauses on the unchanged tree; Q=None is not passed (LocalInference has no fix_measurements)"),
+    "C05": dict(engine="twin-mech", ref="3 (Engine D)",
+                technique="deterministic simulation: record/replay coupling of two mechanism executions on neighbouring datasets under simulator-chosen (faithful and adversarial) random outcomes; conservation invariant on a privacy ledger",
+                text="MST, AIM, MWEM+PGM (Gaussian/Laplace, bounded/unbounded) and Adaptive Grid run end to end on small datasets; run A records every noise draw, release and selection under a seeded outcome policy (faithful, zero noise, outliers, blackout, all-supported, least-likely / repeated selections), run B replays those outcomes on a neighbouring dataset. Each release is charged by the actual change of its operand, each selection by the actual change of its probability vector, and the sum must stay within an independently computed budget rho_ref(eps, delta) (or eps for pure-DP MWEM).",
+                note="ledger charges are lower bounds of the nominal costs, so a sound tree cannot alarm; inference iterations capped per run; autodp/hdmm stubbed; adaptive_grid needs a scipy shim (DESIGN.md 2.3); runs in which the mechanism raises (no output) are not charged"),
+    "C06": dict(engine="twin-mech", ref="3 (Engine D)",
+                technique="deterministic simulation: record/replay coupling of two mechanism executions on neighbouring datasets; event-trace and output equality checked while the replay proceeds",
+                text="same twin runs as C05: the run on the neighbour must issue the same sequence of RNG events with the same shapes and bitwise-equal noise scales, consume the whole recorded trace, raise iff the recorded run raised, and return a dataframe identical to the recorded run's over the original domain.",
+                note="a divergence is reported with its event index; replayed releases return the recorded value whatever the neighbour's operand is"),
     "C02": dict(engine="query-hist", ref="3 (Engine B)",
                 technique="deterministic simulation: generated query/cache/save-load histories with I/O fault injection, refinement against the explicit joint",
                 text="seeded histories of project / calculate_many_marginals / krondot / datavector / save+load on one model object (direct parameters or returned by estimate); after every operation the answer is compared with the explicit joint in the requested axis order; save/load goes through an in-memory file system that injects write errors, lost tails and read errors.",
